@@ -1,4 +1,5 @@
 import RbV.Model.Poa
+import RbV.Gen.Limits
 /-!
 # Mirror model of `Poa::global_banded` (any bandwidth)
 
@@ -23,7 +24,7 @@ the extra banded run of `g` steps (tag `drift-banded-score`).
 namespace RbV.Poa.Model
 open RbV.NW RbV.Poa
 
-def minScore : Int := -858993459
+def minScore : Int := RbV.Gen.Limits.minScorePoa
 
 /-- `TracebackCell { score: MIN_SCORE, op: Match(None) }` -/
 def mcell : Cell := ⟨minScore, .m none⟩
